@@ -7,7 +7,7 @@ THEOREMS = [
     "BSVerif.Props.C19.all_statics_safe",
     "BSVerif.Props.C19.compiled_mutable_safe",
 ]
-RULE = ("ThreadSanitizer stress: T threads x a seeded mix of 16 operation kinds (SaveObject/LoadObject on MsgPack/JSON/XML/CSV from memory "
+RULE = ("ThreadSanitizer stress: T threads x a seeded mix of 18 operation kinds (SaveObject/LoadObject on MsgPack/JSON/XML/CSV from memory "
         "and streams, Convert::To for numbers/enums/chrono/UTF, validation-failing loads) on thread-local data plus shared read-only "
         "inputs; every result compared with the sequential golden run; a TSan report or a differing result is a violation; "
         "non-trivial = a run with >= 2 threads; distinct = distinct (threads, iterations, seed) configurations")
